@@ -31,6 +31,10 @@ func (e UnsupportedTypeError) Error() string {
 // ErrInvalidUTF8 means that a decoder encountered invalid UTF-8.
 var ErrInvalidUTF8 = errors.New("hprose/io: invalid UTF-8")
 
+// ErrNestedTooDeep means that an encoder was given a value nested deeper than any data is, which
+// in practice is a value that contains itself.
+var ErrNestedTooDeep = errors.New("hprose/io: value nested too deep (a map or a list that contains itself?)")
+
 // A CastError is returned by Decoder when can not cast source type to destination type.
 type CastError struct {
 	Source      reflect.Type
